@@ -1,4 +1,145 @@
 package main
 
-func (m *machine) runConc(s step) { fatal("Conc not built") }
-func (m *machine) runVBI(s step)  { fatal("VBI not built") }
+// Concurrent read-only operations (C13) and the variable byte integer
+// probes behind hook H1 (C15).
+
+import (
+	"bytes"
+	"fmt"
+	"io"
+	"reflect"
+	"sync"
+
+	"github.com/gregoryv/mq"
+)
+
+// runConc starts s.Procs goroutines; goroutine g performs ops[g % len(ops)]
+// on handle hs[g % len(hs)], s.N times, after a common barrier.
+func (m *machine) runConc(s step) {
+	type result struct {
+		G     int    `json:"g"`
+		Op    string `json:"op"`
+		H     int    `json:"h"`
+		Same  bool   `json:"same"`
+		Bytes []int  `json:"bytes"`
+		OK    bool   `json:"ok"`
+	}
+	results := make([]result, s.Procs)
+	var start, done sync.WaitGroup
+	start.Add(1)
+	for g := 0; g < s.Procs; g++ {
+		op := s.Ops[g%len(s.Ops)]
+		h := s.Hs[g%len(s.Hs)]
+		p := m.pkts[h]
+		frame := m.written[h]
+		results[g] = result{G: g, Op: op, H: h, Same: true, OK: true, Bytes: []int{}}
+		done.Add(1)
+		go func(g int, op string, p any, frame []byte) {
+			defer done.Done()
+			defer func() {
+				if r := recover(); r != nil {
+					results[g].OK = false
+				}
+			}()
+			start.Wait()
+			var first []byte
+			for i := 0; i < s.N; i++ {
+				switch op {
+				case "WriteTo":
+					var buf bytes.Buffer
+					p.(io.WriterTo).WriteTo(&buf)
+					if first == nil {
+						first = append([]byte{}, buf.Bytes()...)
+					} else if !bytes.Equal(first, buf.Bytes()) {
+						results[g].Same = false
+					}
+				case "String":
+					_ = p.(fmt.Stringer).String()
+				case "Dump":
+					if pk, ok := p.(mq.Packet); ok {
+						mq.Dump(io.Discard, pk)
+					}
+				case "WellFormed":
+					if wf, ok := p.(mq.HasWellFormed); ok {
+						_ = wf.WellFormed()
+					}
+				case "Accessors":
+					_ = project(p)
+				case "ReadPacket":
+					q, err := mq.ReadPacket(bytes.NewReader(frame))
+					if err != nil {
+						results[g].OK = false
+						continue
+					}
+					var buf bytes.Buffer
+					q.WriteTo(&buf)
+					if first == nil {
+						first = append([]byte{}, buf.Bytes()...)
+					} else if !bytes.Equal(first, buf.Bytes()) {
+						results[g].Same = false
+					}
+				}
+			}
+			results[g].Bytes = ints(first)
+		}(g, op, p, frame)
+	}
+	start.Done()
+	done.Wait()
+	e := obj{"ev": "Conc", "hs": s.Hs, "ops": s.Ops, "procs": s.Procs, "n": s.N, "results": results}
+	m.attachObs(e, 0, false)
+	m.emit(e)
+}
+
+// ---- C15 --------------------------------------------------------------
+
+// closed forms VBI4 / VBIRead of spec/Bytes.tla, transcribed; validated by TLC on every event
+func refEnc(v uint) []int {
+	switch {
+	case v < 128:
+		return []int{int(v)}
+	case v < 16384:
+		return []int{int(128 + v%128), int(v / 128)}
+	case v < 2097152:
+		return []int{int(128 + v%128), int(128 + (v/128)%128), int(v / 16384)}
+	}
+	return []int{int(128 + v%128), int(128 + (v/128)%128), int(128 + (v/16384)%128), int(v / 2097152)}
+}
+
+// refRead: kind 0 reject, 1 value; width; minimal
+func refRead(b []byte) (kind int, val uint, width int, minimal bool) {
+	mult := uint(1)
+	for i := 0; i < len(b) && i < 4; i++ {
+		val += uint(b[i]&127) * mult
+		if b[i]&128 == 0 {
+			return 1, val, i + 1, i == 0 || b[i] != 0
+		}
+		mult *= 128
+	}
+	return 0, 0, 0, false
+}
+
+func vbiDecEvent(b []byte) obj {
+	mv, mw, merr := verifVBIDecode(b)
+	sv, sn, serr := verifVBIRead(bytes.NewReader(b))
+	rk, rv, rw, rm := refRead(b)
+	return obj{"ev": "VBIDec", "bytes": ints(b),
+		"mem":    obj{"ok": merr == nil, "val": int(mv), "width": mw},
+		"stream": obj{"ok": serr == nil, "val": int(sv), "n": int(sn)},
+		"ref":    obj{"kind": rk, "val": int(rv), "width": rw, "minimal": rm}}
+}
+
+func (m *machine) runVBI(s step) {
+	switch s.Key {
+	case "enc":
+		for _, v := range s.Bytes { // values
+			b := verifVBIEncode(uint(v))
+			m.emit(obj{"ev": "VBIEnc", "v": v, "bytes": ints(b), "ref": refEnc(uint(v))})
+			m.emit(vbiDecEvent(b))
+		}
+	case "dec":
+		m.emit(vbiDecEvent(toBytes(s.Bytes)))
+	default:
+		fatal("VBI: unknown key %q", s.Key)
+	}
+	_ = reflect.TypeOf
+}
